@@ -75,7 +75,7 @@ func (v *Verifier) addOb(name, kind, clause string, st *State, goal *Term, cover
 		ob.NTriv++
 		return
 	}
-	ob.Cases = append(ob.Cases, obCase{pc: append([]*Term(nil), st.pc...), goal: goal})
+	ob.Cases = append(ob.Cases, obCase{pc: append(append([]*Term(nil), st.pc...), st.instances()...), goal: goal})
 }
 
 // ---- loops ----
@@ -324,6 +324,11 @@ func (v *Verifier) jump(st *State, b *ssa.BasicBlock) bool {
 		for _, m := range spec.Modifies {
 			v.havocNamed(st, fr, m)
 		}
+		lwBefore := st.lw()
+		for _, m := range spec.Allocs {
+			cell := v.cellSortByName(v.pkgOf(fr.fn), m)
+			st.setHeap(cell, HeapExt(st.getHeap(cell), lwBefore))
+		}
 		st.havocLW()
 		ci.heap = map[string]*Term{}
 		for k, h := range st.heap {
@@ -372,8 +377,23 @@ func (v *Verifier) havocNamed(st *State, fr *Frame, name string) {
 		st.setHeap(cell, Store(st.getHeap(cell), ref, f))
 		return
 	}
-	cell := v.cellSortByName(fr.fn, name)
+	cell := v.cellSortByName(v.pkgOf(fr.fn), name)
 	st.setHeap(cell, Fresh(heapName(cell), heapSort(cell)))
+}
+
+func (v *Verifier) pkgOf(fn *ssa.Function) *types.Package {
+	if c := v.contractFor(fn); c != nil {
+		return c.Pkg.Types
+	}
+	for f := fn; f != nil; f = f.Parent() {
+		if f.Pkg != nil {
+			return f.Pkg.Pkg
+		}
+		if o := f.Origin(); o != nil && o.Pkg != nil {
+			return o.Pkg.Pkg
+		}
+	}
+	return nil
 }
 
 func findAlloc(fn *ssa.Function, name string) *ssa.Alloc {
@@ -388,7 +408,7 @@ func findAlloc(fn *ssa.Function, name string) *ssa.Alloc {
 }
 
 // cellSortByName resolves "Track", "midix.Track", "[]Track" style names to a heap cell sort.
-func (v *Verifier) cellSortByName(fn *ssa.Function, name string) *Sort {
+func (v *Verifier) cellSortByName(pkg0 *types.Package, name string) *Sort {
 	arr := false
 	if strings.HasPrefix(name, "[]") {
 		arr = true
@@ -415,7 +435,7 @@ func (v *Verifier) cellSortByName(fn *ssa.Function, name string) *Sort {
 		}
 		return SIface
 	default:
-		pkg := fn.Pkg.Pkg
+		pkg := pkg0
 		if i := strings.Index(name, "."); i >= 0 {
 			pn := name[:i]
 			name = name[i+1:]
@@ -451,7 +471,7 @@ func (v *Verifier) frameCheck(st *State, base map[string]*Term, fresh []*Term, l
 			cells[heapName(cell)] = append(cells[heapName(cell)], v.val(st, al))
 			continue
 		}
-		allow[heapName(v.cellSortByName(fr.fn, a))] = true
+		allow[heapName(v.cellSortByName(v.pkgOf(fr.fn), a))] = true
 	}
 	freshSet := map[*Term]bool{}
 	for _, f := range fresh {
@@ -476,8 +496,17 @@ func (v *Verifier) frameCheck(st *State, base map[string]*Term, fresh []*Term, l
 			skip[c] = true
 		}
 		strip := func(x *Term) *Term {
-			for x.Op == "store" && (freshSet[x.Args[1]] || skip[x.Args[1]]) {
-				x = x.Args[0]
+			for {
+				if x.Op == "store" && (freshSet[x.Args[1]] || skip[x.Args[1]]) {
+					x = x.Args[0]
+					continue
+				}
+				if x.Op == "hext" {
+					// allocation-only extension: cells at or above its water mark are the old ones
+					x = x.Args[0]
+					continue
+				}
+				break
 			}
 			return x
 		}
@@ -544,6 +573,17 @@ func (v *Verifier) step(st *State, instr ssa.Instruction) bool {
 	fr := st.top()
 	switch in := instr.(type) {
 	case *ssa.DebugRef:
+		if !in.IsAddr {
+			if obj, _ := in.Object().(*types.Var); obj != nil && !obj.IsField() {
+				{
+					if t, ok := st.env[in.X]; ok {
+						fr.named = setNamed(fr.named, obj.Name(), t, in.X.Type())
+					} else if c, ok := in.X.(*ssa.Const); ok {
+						fr.named = setNamed(fr.named, obj.Name(), constTerm(c), c.Type())
+					}
+				}
+			}
+		}
 		return true
 	case *ssa.Alloc:
 		T := elemType(in.Type())
@@ -601,6 +641,7 @@ func (v *Verifier) step(st *State, instr ssa.Instruction) bool {
 		case *types.Slice:
 			es := sortOf(u.Elem())
 			v.safety(st, in, "index", And(Ge(i, IntLit(0)), Lt(i, Sel(x, 2))))
+			st.noteIndex(i)
 			st.env[in] = mkLoc(ArraySort(SInt, es), Sel(x, 0), []pathElem{{field: -1, index: Add(Sel(x, 1), i)}})
 		case *types.Pointer:
 			at := u.Elem().Underlying().(*types.Array)
